@@ -470,8 +470,10 @@ func (db *TempPool) SuffrageExpelOperation(
 				return false, err
 			case !bytes.Equal(nodeb, r.Node()):
 				return true, nil
-			case r.End() < heighti, r.Start() > heighti:
+			case r.End() < heighti: // NOTE ordered by end height; no more
 				return false, nil
+			case r.Start() > heighti:
+				return true, nil
 			default:
 				enchint = ht
 				opb = left
@@ -534,8 +536,10 @@ func (db *TempPool) TraverseSuffrageExpelOperations(
 			switch enchint, r, opb, err := ReadFrameHeaderSuffrageExpelOperation(b); {
 			case err != nil:
 				return false, err
-			case r.End() < heighti, r.Start() > heighti:
+			case r.End() < heighti: // NOTE ordered by end height; no more
 				return false, nil
+			case r.Start() > heighti:
+				return true, nil
 			default:
 				if err := DecodeFrame(db.encs, enchint, opb, &op); err != nil {
 					return false, err
